@@ -50,7 +50,10 @@ ASSUMPTIONS = [
     "exactly constant columns keep scale 1); weights are used as given (not normalised); verified against scikit-learn 1.9.1 Ridge/LinearRegression",
     "first-order optimality: |A^T (A p - b)| <= 1e-12 * |A| (|A||p| + |b|) with A = [sqrt(w) J S^-1; sqrt(damping) I] built from reference kernels; "
     "for damped fits with fewer data than parameters (they arise when an estimator with fixed forces is refitted to fewer points) the threshold is "
-    "max(1e-12, kappa^2 eps): scikit-learn solves those in the dual, whose backward error maps to a primal gradient of that size",
+    "max(1e-12, 100 kappa^2 eps): scikit-learn solves those in the dual, whose backward error maps to a primal gradient of that size (measured <= 12 kappa^2 eps)",
+    "damped fits depend on the column scales themselves; the standard deviation of a column of magnitude m and spread s is defined to eps*m/s only, so "
+    "for damped fits the gradient threshold gains 4 eps (m/s) damping/|A|^2 and the prediction tolerance the factor max(1, m/s) (nearly constant "
+    "columns arise when fixed forces lie far from the data of a refit)",
     "prediction agreement: 100 * kappa_eff * eps * max(|prediction|, |data|), kappa_eff = kappa (undamped, lstsq) or kappa^2 (damped, Cholesky on the "
     "normal equations); judged only when 100*kappa_eff*eps < 1e-3 and, for under-determined undamped fits, only at the data points",
     "columns that are constant only up to round-off (relative spread <= 1e-10) make the scaling ill-defined: the fit is skipped",
@@ -114,6 +117,7 @@ class Rec:
         self.east = self.north = self.data = self.weights = None
         self.force = None
         self.gradient = None
+        self.scale_amp = 1.0
 
     def jacobian(self, east, north):
         if self.kind == "trend":
@@ -124,7 +128,8 @@ class Rec:
 
     @property
     def rel_tol(self):
-        return K * self.lsq.kappa_eff * EPS
+        # damped fits depend on the column scales themselves, which are defined to eps * scale_amp only; undamped fits do not depend on them
+        return K * self.lsq.kappa_eff * EPS * (self.scale_amp if self.lsq.damped else 1.0)
 
     @property
     def informative(self):
@@ -197,6 +202,12 @@ def install(tap, run):
             rec.skip = "reference kernel not finite (zero distance with mindist=0 in the elastic kernel)"
             return rec
         rec.lsq = ref.LeastSquares(jac, rec.data, rec.weights, damping)
+        # how well the unit-variance scaling itself is defined: the standard deviation of a column with magnitude m and spread s is known to
+        # about eps * m / s only (cancellation in x - mean); exactly constant columns have the exact scale 1
+        if jac.size:
+            varying = ~np.all(jac == jac[0:1, :], axis=0)
+            ratio = np.max(np.abs(jac), axis=0)[varying] / rec.lsq.scale[varying]
+            rec.scale_amp = float(max(1.0, ratio.max())) if ratio.size else 1.0
         if rec.lsq.skip:
             rec.skip = rec.lsq.skip
         return rec
@@ -226,10 +237,15 @@ def install(tap, run):
         rec.gradient = grad
         witness.update(parameters=params, normalised_gradient=grad)
         grad_tol = GRADIENT_TOL
+        if damped:
+            # verde's scales S' = S (1 + delta), |delta| <~ eps * scale_amp, move the stationary point: reference gradient = -2 damping delta S p,
+            # i.e. at most 2 eps scale_amp damping / smax^2 in the normalised measure (factor 2 of slack on top)
+            grad_tol += 4 * EPS * rec.scale_amp * float(rec.cfg["damping"]) / max(lsq.smax ** 2, np.finfo("float64").tiny)
+            run.observe_max("scale_amplification:damped:" + kind, rec.scale_amp)
         if damped and rows < cols:
             # scikit-learn solves damped problems with fewer data than parameters in the dual (K + damping I) c = d, p = A^T c: a backward-stable
             # dual solve leaves a primal gradient A^T r with |r| <= eps |K + damping I| |c|, i.e. up to kappa^2 eps in the normalised measure
-            grad_tol = max(GRADIENT_TOL, lsq.cond ** 2 * EPS)
+            grad_tol = max(grad_tol, K * lsq.cond ** 2 * EPS)
             run.count("class:damped_fewer_data_than_parameters:" + kind)
             if lsq.cond ** 2 * EPS > 0:
                 run.observe_max("gradient_over_kappa2_eps:damped_fewer_data_than_parameters", grad / (lsq.cond ** 2 * EPS))
